@@ -91,18 +91,28 @@ def read_calls(d):
     return [l.split() for l in open(p).read().split('\n') if l.strip()]
 
 
+STORE_DIR = ['jugfile.jugdata']      # the store of the current case (a jugfile may select another one with jug.set_jugdir)
+
+
 def lock_files(d):
-    p = os.path.join(d, 'jugfile.jugdata', 'locks')
+    p = os.path.join(d, STORE_DIR[0], 'locks')
     return sorted(os.listdir(p)) if os.path.exists(p) else []
 
 
-def signal_case(n, victim_k, sig, extra_args=(), env_extra=None, jugdir_prefix='', repeat=False, barrier=False, broken_stdio=False):
+def signal_case(n, victim_k, sig, extra_args=(), env_extra=None, jugdir_prefix='', repeat=False, barrier=False, broken_stdio=False, set_jugdir=False):
     """run `jug execute`, deliver `sig` while the worker is inside step(victim_k); then inspect, then let a second worker finish.
     returns a dict of observations"""
     d = core.scratch_dir('jugproc-')
     try:
+        STORE_DIR[0] = 'jugfile.jugdata'
         with open(os.path.join(d, 'jugfile.py'), 'w') as f:
-            f.write(JUGFILE.replace('%(n)d', str(n)))
+            text = JUGFILE.replace('%(n)d', str(n))
+            if set_jugdir:
+                # the project keeps its results where the jugfile says (jug.set_jugdir), not where the command line default points
+                text = text.replace('\nchain = [step(1, 0)]', '\nimport jug\njug.set_jugdir(os.path.join(HERE, "chosen.jugdata"))\nchain = [step(1, 0)]', 1)
+                assert 'set_jugdir' in text
+                STORE_DIR[0] = 'chosen.jugdata'
+            f.write(text)
         open(os.path.join(d, 'block-%d' % victim_k), 'w').close()
         if barrier:
             open(os.path.join(d, 'with-barrier'), 'w').close()
@@ -175,7 +185,7 @@ def signal_case(n, victim_k, sig, extra_args=(), env_extra=None, jugdir_prefix='
         obs['value_err'] = v.stderr[-300:]
         obs['expected'] = str(expected(n))
         obs['calls'] = read_calls(d)
-        tmp = os.path.join(d, 'jugfile.jugdata', 'tempfiles')
+        tmp = os.path.join(d, STORE_DIR[0], 'tempfiles')
         obs['tempfiles'] = sorted(os.listdir(tmp)) if os.path.exists(tmp) else []
         return obs
     finally:
@@ -327,10 +337,11 @@ def judge_kill(run, obs, params):
 def kill_family(run, rng, n=3):
     # the last two cases: a jugfile with a barrier - the worker is killed inside a task before the barrier (the jugfile is only partially loadable
     # when the stale lock has to be removed) and inside one behind it
-    plan = [(rng.choice([1, 2, 3, 4, 101]), False) for _ in range(n)] + [(rng.choice([1, 2]), True), (rng.choice([3, 4]), True)]
-    for i, (k, barrier) in enumerate(plan):
-        params = {'sig': int(signal.SIGKILL), 'k': k, 'n': 4, 'barrier': barrier}
-        obs = signal_case(4, k, signal.SIGKILL, barrier=barrier)
+    # ... and a project whose jugfile selects its store itself (jug.set_jugdir): every command of the recovery must act on that store
+    plan = [(rng.choice([1, 2, 3, 4, 101]), False, False) for _ in range(n)] + [(rng.choice([1, 2]), True, False), (rng.choice([3, 4]), True, False), (rng.choice([1, 2, 3]), False, True)]
+    for i, (k, barrier, setjd) in enumerate(plan):
+        params = {'sig': int(signal.SIGKILL), 'k': k, 'n': 4, 'barrier': barrier, 'set_jugdir': setjd}
+        obs = signal_case(4, k, signal.SIGKILL, barrier=barrier, set_jugdir=setjd)
         judge_kill(run, obs, params)
         run.case(('proc-kill', i, run.seed), nontrivial='error' not in obs)
         run.count('process_mode_kill_cases')
